@@ -24,6 +24,7 @@ type BandSim struct {
 	// price process state (generator side only; events carry concrete rates)
 	Prices     []uint64 // by position among oracle-priced assets in id order
 	LastPeriod int64    // last 20-block period for which the relayer acted
+	Custom     func(w *World, r *Rng) []*Event
 }
 
 const bandChannel = "channel-7"
@@ -166,6 +167,9 @@ func (b *BandSim) RelayerEvents(w *World, r *Rng, faultPermille int, pathMode, v
 		return nil
 	}
 	b.LastPeriod = period
+	if b.Custom != nil {
+		return b.Custom(w, r)
+	}
 	b.StepPrices(r, pathMode, vol)
 	b.NextReqID++
 	id := b.NextReqID
